@@ -209,6 +209,8 @@ class Ob:
                     raise AnalysisBroken('variable %s not found in %s' % (val.var, self.func))
                 val = vs[0][1]['n']
             d = dict(kind='assume', n=n, ty=ty, pred=h[1], value=val, param=param)
+            if len(h) > 3:
+                d['mask'] = h[3]
             if at is not None:
                 d['at_block'] = at
             return d
@@ -305,7 +307,7 @@ def _hs(h):
     if h[0] == 'mask':
         return '&%d' % h[1]
     if h[0] == 'assume':
-        return '%s %s' % (h[1], h[2])
+        return '%s%s %s' % ('&%d ' % h[3] if len(h) > 3 else '', h[1], h[2])
     return str(h)
 
 
@@ -582,3 +584,17 @@ def run_conjuncts(chk, specs, rule_default='conjunct'):
                 chk.ok(rule, inst, where, det)
             else:
                 chk.violation(rule, inst, where, det + '. ' + reason, key='%s %s %s' % (rule, func, name))
+
+
+class FieldLoad:
+    """every load of (param + const offset) inside the function; hypotheses are applied to all of them together"""
+    together = True
+
+    def __init__(self, param, off, name, size=None):
+        self.param, self.off, self.name, self.size = param, off, name, size
+
+    def sites(self, U, fname):
+        return [('load %s#%d' % (self.name, k), i) for k, i in enumerate(U.field_loads(fname, self.param, self.off, self.size))]
+
+    def __str__(self):
+        return 'load of ' + self.name
